@@ -243,6 +243,23 @@ class Interp:
             return self.call(e)
         raise Unknown(unparse(e)[:40])
 
+    def operand(self, v):
+        """hook: a value is consumed as an operand of a contraction"""
+        return v
+
+    def star_args(self, args):
+        """values of call arguments, `*sequence` unpacked"""
+        out = []
+        for a in args:
+            if isinstance(a, ast.Starred):
+                seq = self.ev(a.value)
+                if not isinstance(seq, (list, tuple)):
+                    raise Unknown(f"*{unparse(a.value)[:30]}")
+                out.extend(seq)
+            else:
+                out.append(self.ev(a))
+        return out
+
     def bind(self, target, val):
         if isinstance(target, ast.Name):
             self.env[target.id] = val
@@ -285,7 +302,7 @@ class Interp:
                 raise Malformed(f"transpose{tuple(perm)} on a rank-{v.rank} tensor")
             return T(self.tn, [v.legs[p] for p in perm])
         if short == "tensordot":
-            a, b = self.ev(e.args[0]), self.ev(e.args[1])
+            a, b = self.operand(self.ev(e.args[0])), self.operand(self.ev(e.args[1]))
             axn = e.args[2] if len(e.args) > 2 else None
             for k in e.keywords:
                 if k.arg == "axes":
@@ -298,19 +315,19 @@ class Interp:
         if short in ("oe_contract", "oe_contract_expression", "einsum"):
             spec = self.ev(e.args[0])
             ops = []
-            for a in e.args[1:]:
-                v = self.ev(a)
+            for v in self.star_args(e.args[1:]):
+                v = self.operand(v)
                 if isinstance(v, T):
                     ops.append(v)
                 elif isinstance(v, tuple) and v and v[0] == "XSHAPE":
                     ops.append(v[1])
                 else:
-                    raise AnalysisError(f"operand {unparse(a)} of {short} is not a tensor value")
+                    raise AnalysisError(f"operand {v!r} of {short} is not a tensor value")
             self.calls.append((short, spec, e.lineno))
             return einsum(self.tn, spec, ops)
         if short == "multi_tensor_contract":
             path = self.ev(e.args[0])
-            ops = [self.ev(a) for a in e.args[1:]]
+            ops = [self.operand(v) for v in self.star_args(e.args[1:])]
             path = [(p[0], p[1]) for p in path]
             for p in path:
                 self.calls.append(("path", p[1], e.lineno))
